@@ -56,3 +56,17 @@ PROPS["C18"] = dict(
     assumptions=["WDT WellFormed: sizes fit, flags <= 0xFFFF, MWMO present only where the version rule emits it, MAID only "
                  "for BfA+, names non-empty NUL-free", "WDL TileOk: MARE payload = TOTAL_COUNT*2 bytes, MAHO = MASK_COUNT*2"],
 )
+
+PROPS["C03"] = dict(
+    rule=("inputs of 35 (quick) / 80 (thorough) lengths from 0 to 2^20 (2^21 thorough), around 4 KiB / 64 KiB boundaries, "
+          "x 6 compressibility classes (constant, zeros, random, periodic, sparse with literal runs of 0x7f..0x83 and "
+          "zero runs of 0x82..0x87, text) x 7 single selectors; all 256 selector bytes; 3000 (quick) / 20000 synthetic "
+          "(clen, dlen, method) triples around every ratio threshold for the acceptance arithmetic; ADPCM mono/stereo "
+          "length and interleaving. non-trivial = a framed unit that round-trips; distinct by FNV hash of method, class, "
+          "length and payload length"),
+    trusted_base=COMMON_TB + [
+        "zlib (flate2), bzip2, lzma-rs, pklib/implode and the in-tree Huffman/ADPCM codecs are parameters of the model; "
+        "their inversion on each explored input is observed by the oracle, not proved",
+        "the sparse *compressor* is not modelled; its output is checked against the proved decoder per run"],
+    assumptions=["Codec round trip dec(enc d) = d for third-party codecs (sampled)"],
+)
